@@ -657,35 +657,64 @@ def topCofactorI (t : Tbl) (u : Int) (i : Int) : Except Err (Int × Int) :=
       | some _ => .ok (u, u))
   else topCofactor t u i.toNat
 
-def imageF (umap vmap : Option (List (Int × Int))) (qvars : List Nat) (forall_ : Bool) :
+/-- `umap.get(z, z)` for a renaming that may be `None` -/
+def mapLvl (mp : Option (List (Int × Int))) (z : Int) : Int :=
+  match mp with
+  | none => z
+  | some l => (l.lookup z).getD z
+
+/-- `find_or_add(i, -1, 1)` where `i` is not an `int` (a rename target that is an undeclared
+name): after the reordering request, `i < 0` is a TypeError -/
+def findOrAddNonInt : M Int := fun m =>
+  match (if m.ctx then requestReordering m else (.ok (), m)) with
+  | (.error e, m1) => (.error e, m1)
+  | (.ok _, m1) => (.error .type, m1)
+
+/-- `_image(u, v, umap, vmap, qvars, bdd, forall, cache)`.  A renaming is given by its
+`int -> int` items (`umap`, `vmap`) and by the `int` keys whose value is not an `int`
+(`ubad`, `vbad`: an undeclared name stays a `str` in the dictionary; looking such a key up ends
+in a TypeError). -/
+def imageF (umap vmap : Option (List (Int × Int))) (ubad vbad : List Int) (qvars : List Nat)
+    (forall_ : Bool) :
     Nat → Int → Int → HashMap (Int × Int) Int → M (Int × HashMap (Int × Int) Int)
-  | 0, _, _, _ => M.throw .fuel
-  | f+1, u, v, cache => do
-    if u = -1 || v = -1 then return (-1, cache)
-    if u = 1 && v = 1 then return (1, cache)
+  | 0, _, _, _ => fun m => (.error .fuel, m)
+  | f+1, u, v, cache => fun m =>
+    if u = -1 ∨ v = -1 then (.ok (-1, cache), m) else
+    if u = 1 ∧ v = 1 then (.ok (1, cache), m) else
     match cache[(u, v)]? with
-    | some w => return (w, cache)
+    | some w => (.ok (w, cache), m)
     | none =>
-      let m ← M.get
-      let iu ← M.ofOption .key (m.tbl.levelOf? u)
-      let jv ← M.ofOption .key (m.tbl.levelOf? v)
-      let iv : Int := match vmap with
-        | none => jv
-        | some vm => (vm.lookup (jv : Int)).getD jv
-      let z : Int := min (iu : Int) iv
-      let (u0, u1) ← liftE (topCofactorI m.tbl u z)
-      let (v0, v1) ← liftE (topCofactorI m.tbl v ((jv : Int) + z - iv))
-      let (p, cache) ← imageF umap vmap qvars forall_ f u0 v0 cache
-      let (q, cache) ← imageF umap vmap qvars forall_ f u1 v1 cache
-      let r ← (if 0 ≤ z && qvars.contains z.toNat then
-          (if forall_ then ite p q (-1) else ite p 1 q)
-        else do
-          let mm : Int := match umap with
-            | none => z
-            | some um => (um.lookup z).getD z
-          let g ← findOrAdd mm (-1) 1
-          ite g q p)
-      return (r, cache.insert (u, v) r)
+      match m.tbl.levelOf? u with
+      | none => (.error .key, m)
+      | some iu =>
+      match m.tbl.levelOf? v with
+      | none => (.error .key, m)
+      | some jv =>
+        -- `iv = vmap.get(jv, jv)`; `min(iu, iv)` with a `str` is a TypeError
+        if vbad.contains (jv : Int) then (.error .type, m) else
+        let iv : Int := mapLvl vmap jv
+        let z : Int := min (iu : Int) iv
+        match topCofactorI m.tbl u z with
+        | .error e => (.error e, m)
+        | .ok (u0, u1) =>
+        match topCofactorI m.tbl v ((jv : Int) + z - iv) with
+        | .error e => (.error e, m)
+        | .ok (v0, v1) =>
+          match imageF umap vmap ubad vbad qvars forall_ f u0 v0 cache m with
+          | (.error e, m1) => (.error e, m1)
+          | (.ok (p, cache), m1) =>
+            match imageF umap vmap ubad vbad qvars forall_ f u1 v1 cache m1 with
+            | (.error e, m2) => (.error e, m2)
+            | (.ok (q, cache), m2) =>
+              match (if 0 ≤ z ∧ qvars.contains z.toNat = true then
+                  (if forall_ then ite p q (-1) m2 else ite p 1 q m2)
+                else
+                  match (if ubad.contains z then findOrAddNonInt m2
+                      else findOrAdd (mapLvl umap z) (-1) 1 m2) with
+                  | (.error e, m3) => (.error e, m3)
+                  | (.ok g, m3) => ite g q p m3) with
+              | (.error e, m3) => (.error e, m3)
+              | (.ok r, m3) => (.ok (r, cache.insert (u, v) r), m3)
 
 /-- `{bdd.vars.get(k, k): bdd.vars.get(v, v) ...}`; undeclared names stay names -/
 def resolveRename (t : Tbl) (rn : List (Key × Key)) : List (Key × Key) :=
@@ -698,47 +727,97 @@ def resolveRename (t : Tbl) (rn : List (Key × Key)) : List (Key × Key) :=
   let l := rn.map fun (k, v) => (res k, res v)
   (dedup (l.reverse.map (·.1))).reverse.map fun k => (k, (l.reverse.lookup k).getD k)
 
+/-- the `int -> int` items of the resolved renaming -/
 def intPairs (rn : List (Key × Key)) : List (Int × Int) :=
   rn.filterMap fun (k, v) => match k, v with
     | .lvl a, .lvl b => some (a, b)
     | _, _ => none
 
+/-- the `int` keys of the resolved renaming whose value is not an `int` (an undeclared name) -/
+def badKeys (rn : List (Key × Key)) : List Int :=
+  rn.filterMap fun (k, v) => match k, v with
+    | .lvl a, .name _ => some a
+    | _, _ => none
+
+/-- the `int` values of the resolved renaming (whatever the key) -/
+def renameValues (rn : List (Key × Key)) : List Int :=
+  rn.filterMap fun (_, v) => match v with
+    | .lvl b => some b
+    | .name _ => none
+
+/-- `_assert_no_overlap(d)`: some value is also a key -/
+def renameOverlap (rn : List (Key × Key)) : Bool :=
+  rn.any fun (_, v) => rn.any (·.1 = v)
+
+/-- the levels of the operands' support that are rename targets and not quantified -/
+def imageBadTargets (vals : List Int) (q s1 s2 : List Nat) : List Nat :=
+  (s1 ++ s2).filter fun l => !q.contains l && vals.contains (l : Int)
+
+/-- `_all_adjacent(dvars, bdd)`, only its effects: the pairs are visited in dictionary order;
+`abs(i - j)` on a name is a TypeError; the visit stops at the first pair that is not adjacent,
+whose warning message calls `var_at_level` on both levels -/
+def adjacentWarn : List (Key × Key) → M Unit
+  | [] => fun m => (.ok (), m)
+  | (k, v) :: rest => fun m =>
+    match k, v with
+    | .lvl a, .lvl b =>
+      if (a - b).natAbs = 1 then adjacentWarn rest m else
+      match varAtLevel a m with
+      | (.error e, m1) => (.error e, m1)
+      | (.ok _, m1) =>
+        match varAtLevel b m1 with
+        | (.error e, m2) => (.error e, m2)
+        | (.ok _, m2) => (.ok (), m2)
+    | _, _ => (.error .type, m)
+
 /-- module-level `image(trans, source, rename, qvars, bdd, forall)` -/
-def image (trans source : Int) (rn : List (Key × Key)) (qvars : List Key) (forall_ : Bool) : M Int := do
-  let q ← mapToLevel qvars
-  let m ← M.get
-  let rn := resolveRename m.tbl rn
-  -- `_assert_no_overlap`
-  if rn.any fun (_, v) => rn.any (·.1 = v) then M.throw .assertion
-  -- `_all_adjacent`: arithmetic on a non-level key is a TypeError
-  if rn.any fun (k, v) => match k, v with
-      | .lvl _, .lvl _ => false
-      | _, _ => true
-    then M.throw .type
-  -- `_all_adjacent` stops at the first non-adjacent pair; its warning calls `var_at_level`
-  match (intPairs rn).find? (fun (k, v) => (k - v).natAbs ≠ 1) with
-  | some (k, v) =>
-    let _ ← varAtLevel k
-    let _ ← varAtLevel v
-  | none => pure ()
-  let s1 ← liftE (supportLevels m.tbl trans)
-  let s2 ← liftE (supportLevels m.tbl source)
-  let s := (s1 ++ s2).filter fun l => !q.contains l && (intPairs rn).any (·.2 = (l : Int))
-  if !s.isEmpty then M.throw .assertion
-  let (r, _) ← imageF (some (intPairs rn)) none q forall_ (2 * m.nvars + 4) trans source {}
-  return r
+def image (trans source : Int) (rn : List (Key × Key)) (qvars : List Key) (forall_ : Bool) : M Int :=
+  fun m =>
+  match mapToLevelE m.tbl qvars with
+  | .error e => (.error e, m)
+  | .ok q =>
+    let rn := resolveRename m.tbl rn
+    -- `_assert_no_overlap`
+    if renameOverlap rn then (.error .assertion, m) else
+    match adjacentWarn rn m with
+    | (.error e, m1) => (.error e, m1)
+    | (.ok _, m1) =>
+      match supportLevels m.tbl trans with
+      | .error e => (.error e, m1)
+      | .ok s1 =>
+      match supportLevels m.tbl source with
+      | .error e => (.error e, m1)
+      | .ok s2 =>
+        if !(imageBadTargets (renameValues rn) q s1 s2).isEmpty then (.error .assertion, m1) else
+        match imageF (some (intPairs rn)) none (badKeys rn) [] q forall_ (2 * m.nvars + 4)
+            trans source {} m1 with
+        | (.error e, m2) => (.error e, m2)
+        | (.ok (r, _), m2) => (.ok r, m2)
+
+/-- `_assert_valid_rename(u, bdd, dvars)` -/
+def assertValidRename (rn : List (Key × Key)) : M Unit := fun m =>
+  if rn.isEmpty then (.ok (), m) else
+  match varAtLevel 0 m with
+  | (.error e, m1) => (.error e, m1)
+  | (.ok _, m1) => if renameOverlap rn then (.error .assertion, m1) else (.ok (), m1)
 
 /-- module-level `preimage(trans, target, rename, qvars, bdd, forall)` -/
-def preimage (trans target : Int) (rn : List (Key × Key)) (qvars : List Key) (forall_ : Bool) : M Int := do
-  let q ← mapToLevel qvars
-  let m ← M.get
-  let rn := resolveRename m.tbl rn
-  -- `_assert_valid_rename`
-  if !rn.isEmpty then
-    let _ ← varAtLevel 0
-    if rn.any fun (_, v) => rn.any (·.1 = v) then M.throw .assertion
-  let (r, _) ← imageF none (some (intPairs rn)) q forall_ (2 * m.nvars + 4) trans target {}
-  return r
+def preimage (trans target : Int) (rn : List (Key × Key)) (qvars : List Key) (forall_ : Bool) : M Int :=
+  fun m =>
+  match mapToLevelE m.tbl qvars with
+  | .error e => (.error e, m)
+  | .ok q =>
+    let rn := resolveRename m.tbl rn
+    match assertValidRename rn m with
+    | (.error e, m1) => (.error e, m1)
+    | (.ok _, m1) =>
+      match imageF none (some (intPairs rn)) [] (badKeys rn) q forall_ (2 * m.nvars + 4)
+          trans target {} m1 with
+      -- every call of `_image` either moves down in `u` or in `v`, or calls itself with the same
+      -- pair (a renaming that sends a level below the bottom, or moves the terminal's level):
+      -- the fuel `2n + 4` runs out exactly when Python ends in RecursionError (a RuntimeError)
+      | (.error e, m2) => (.error (if e = .fuel then .runtime else e), m2)
+      | (.ok (r, _), m2) => (.ok r, m2)
 
 /-! ### to_expr -/
 
